@@ -137,3 +137,23 @@ def const_assigned(stmt):
     if r["rv"] == "use" and r["ops"][0].get("k") == "const":
         return r["ops"][0].get("int")
     return None
+
+
+def symcalls(prog, f, S=None):
+    """[(block, canonical callee, [symbolic args], term)] for every call in f"""
+    from .sym import Sym
+    S = S or Sym(prog, f)
+    out = []
+    for b, t in f.calls():
+        out.append((b, cname(prog, t), [S.val(a) for a in t["args"]], t))
+    return out
+
+
+def has_fact(S, block, pattern, truth):
+    """a dominating branch fact whose expression matches regex `pattern` with the given truth
+    (truth may be a bool or an (op, value) tuple for integer/discriminant switches)"""
+    rx = re.compile(pattern)
+    for (e, tr, g) in S.bool_facts_at(block):
+        if rx.search(e) and tr == truth:
+            return True
+    return False
